@@ -20,7 +20,7 @@ static std::vector<int> admissibleAll(const KCase& c)
 {
   std::vector<int> r;
   for (int i = 0; i < c.n(); i++)
-    if (c.active(i) && c.anyDef(i)) r.push_back(i);
+    if (c.active(i) && c.anyDef(i)) r.push_back(i); // data without external drift are dropped by Oracle::layout, like the library
   return r;
 }
 static KCase dropSample(const KCase& c, int i0)
@@ -479,6 +479,7 @@ static KCase genXV()
   o.heteroPct = 40;
   o.selPct = 30;
   o.verrPct = 12;
+  o.naFdataPct = 10;
   o.family = G::pick<int>({0, 1, 1, 2, 2, 3});
   return genCase(o);
 }
@@ -516,9 +517,14 @@ static void runXV(const KCase& c, Ctx& ctx)
   full.o->solve(0, pointGeom(c.ndim, c.data.p(all[0])), all, SF);
   if (!SF.solved || !(SF.kappa <= kKappaMax)) { ctx.inconclusive("ill-conditioned"); return; }
   bool hasVerr = !c.verr.empty();
+  bool naF = false; // data without external drift: they do not enter the kriging system (KrigingSystem::_flagDefine)
+  for (int i : all) naF = naF || !c.fdef(i);
+  if (naF) ctx.label("na-extdrift-at-data");
+  std::string Q = naF ? "xvalid:na-extdrift" : "xvalid";
   int nChecked = 0, nIll = 0;
   for (int i : all)
   {
+    if (!c.fdef(i)) continue;
     // explicit leave-one-out: krige at x_i from the data set without sample i
     KCase l = oneTarget(dropSample(c, i), c.data.p(i), c.nfex ? &c.fdat[(size_t)(i * c.nfex)] : nullptr);
     l.moving = 0;
@@ -543,8 +549,8 @@ static void runXV(const KCase& c, Ctx& ctx)
     LD relB = (LD)epsK(kap, eta) * (LD)SF.sminInv;
     t.v += relB * var * var;
     t.e += relB * var * z1 * 2;
-    if (!cmpVal(ctx, "xvalid:estim:" + V, "Z*", i, 0, xe[i], R.est[0], t.e, kap)) return;
-    std::string ks = hasVerr ? "xvalid:stdev:verr:" + V : "xvalid:stdev:" + V;
+    if (!cmpVal(ctx, Q + ":estim:" + V, "Z*", i, 0, xe[i], R.est[0], t.e, kap)) return;
+    std::string ks = hasVerr ? Q + ":stdev:verr:" + V : Q + ":stdev:" + V;
     if (!cmpVal(ctx, ks, "S", i, 0, xs[i], R.sd[0], t.v, kap, true)) return;
   }
   // masked / undefined samples keep undefined results
@@ -951,6 +957,7 @@ static CcCase genCc()
   o.verrPct = 0;
   o.intrinsicPct = 0;
   o.heteroPct = 50;
+  o.naFdataPct = 0;
   o.selPct = 20;
   o.nMax = 30;
   c.k = genCase(o);
@@ -1119,6 +1126,7 @@ static GenOpt optKc()
   o.intrinsicPct = 0;
   o.verrPct = 0;
   o.heteroPct = 45;
+  o.naFdataPct = 0;
   o.selPct = 25;
   o.nMax = 30;
   return o;
